@@ -2,7 +2,7 @@
   C09 — local-Clifford equivalence of graph states is decided correctly, constructively.
 
   Property theorems only (helper lemmas live in Proofs/GraphOps.lean, Proofs/LC.lean, Proofs/LCSeq{Step,Loop,Term}.lean and
-  Proofs/LC{Comp,Block,Repair,Assemble}.lean, Proofs/LCTotal{Ech,Cols,Inv,Basis,R}.lean, Proofs/LCTotal.lean, Proofs/LCGates{,2}.lean, Proofs/LCTableaux.lean).
+  Proofs/LC{Comp,Block,Repair,Assemble}.lean, Proofs/LCTotal{Ech,Cols,Inv,Basis,R}.lean, Proofs/LCTotal.lean, Proofs/LCGates{,2}.lean, Proofs/LCTableaux{,2}.lean).
 
   What is proved here for every size n and every input (Tier A of DESIGN §4):
     1. local complementation toggles exactly the pairs of distinct neighbours and is an involution; both implementations
@@ -48,7 +48,8 @@
        its gates map `|A⟩` exactly onto `|B⟩` with or without `validate` (`lc_check_total_and_right`).
    11. Tableau inputs (section 8; Proofs/LCTableaux.lean): `lc_check` on two stabilizer states, modelled function by function
        (`lcCheckStates`), returns a total gate list `gates1 + gate_list + inversed_gates2` that maps the first state exactly onto
-       the second (`lc_check_on_tableaux_sound`) — composition of C08's `state_to_graph` soundness with item 10.
+       the second (`lc_check_on_tableaux_sound`) — composition of C08's `state_to_graph` soundness with item 10 — and is total on
+       stabilizer states, validation included (`lc_check_on_stabilizer_states_total_and_right`).
   `isLcEquivalent` is the model of `is_lc_equivalent` while the repository is unrepaired and of `_is_lc_equivalent_component`
   afterwards; sections 2–4 are about it in both readings.
 -/
@@ -59,6 +60,7 @@ import GraphiqModel.Proofs.LCAssemble
 import GraphiqModel.Proofs.LCTotalR
 import GraphiqModel.Proofs.LCGates2
 import GraphiqModel.Proofs.LCTableaux
+import GraphiqModel.Proofs.LCTableaux2
 namespace Graphiq.C09
 open Graphiq Graphiq.LC Graphiq.PRow Graphiq.Tab
 
@@ -766,7 +768,7 @@ theorem lc_check_2K2_repaired : checkAnswerR twoK2 twoK2 = some (true, [("H", 0)
 /-! ## 6. Totality: `is_lc_equivalent` returns (no internal assertion can fire)
 
   Every decision theorem above has a hypothesis `… = .ok out` ("the function returned").  It is discharged here for every
-  input of the property's quantifier (helper lemmas: Proofs/LCTotal{Ech,Cols,Inv,Basis,R}.lean, Proofs/LCTotal.lean, Proofs/LCGates{,2}.lean, Proofs/LCTableaux.lean). -/
+  input of the property's quantifier (helper lemmas: Proofs/LCTotal{Ech,Cols,Inv,Basis,R}.lean, Proofs/LCTotal.lean, Proofs/LCGates{,2}.lean, Proofs/LCTableaux{,2}.lean). -/
 
 /-- **the whole-graph algorithm (`is_lc_equivalent` before the repair of D14, `_is_lc_equivalent_component` after it) is
     total**: for two adjacency matrices of the same size `n ≥ 1`, in deterministic or random mode and for every value of the
@@ -929,6 +931,18 @@ theorem lc_check_on_tableaux_sound (t1 t2 : STab) (hreal1 : ∀ i, i < t1.n → 
     (hreal2 : ∀ i, i < t2.n → (t2.row i).ip = false) (hn : t1.n = t2.n) (validate : Bool) (total : List Gate)
     (h : lcCheckStates t1 t2 validate = .ok (true, total)) : STab.SpanEq (t1.runCircuit total) t2 :=
   lcCheckStates_sound t1 t2 hreal1 hreal2 hn validate total h
+
+/-- **`lc_check` on two stabilizer states is total and right** (every n ≥ 1, validation on or off): for two stabilizer states —
+    commuting, real, independent generators, i.e. exactly the inputs on which `state_to_graph` returns
+    (C08 `state_to_graph_returns_iff_state`) — the modelled `lc_check` returns `(False, [])` or `(True, total)`: none of the
+    assertions of `state_to_graph`, `converter_gate_list`, `canonical_form` fires and the validation `Warning` cannot be raised
+    (a gate list maps independent generators to independent generators, `indep_runCircuit`; equal signed groups have equal
+    canonical forms); and after `(True, total)` the gate list maps the first state exactly onto the second -/
+theorem lc_check_on_stabilizer_states_total_and_right (t1 t2 : STab) (hn1 : 0 < t1.n) (hn : t1.n = t2.n)
+    (g1 : t1.Good) (i1 : t1.Indep) (g2 : t2.Good) (i2 : t2.Indep) (validate : Bool) :
+    lcCheckStates t1 t2 validate = .ok (false, []) ∨
+      ∃ total, lcCheckStates t1 t2 validate = .ok (true, total) ∧ STab.SpanEq (t1.runCircuit total) t2 :=
+  lcCheckStates_total t1 t2 hn1 hn g1 i1 g2 i2 validate
 
 set_option maxRecDepth 100000 in
 /-- non-vacuity (kernel-checked): on the pair below the modelled `lc_check` returns `(True, [H 0, H 1, H 1])` — the gate list
